@@ -944,10 +944,16 @@ func init() {
 			}
 			digest = in.hashUF(code, n, terms)
 		}
-		if code >= 128 || len(digest) >= 128 {
-			panic(engineErr("multihash.Sum model: code/length need multi-byte varints"))
+		// unsigned varints for code and digest length
+		var out []*term.T
+		for _, v := range []uint64{code, uint64(len(digest))} {
+			for v >= 0x80 {
+				out = append(out, in.M.BV(v&0x7f|0x80, 8))
+				v >>= 7
+			}
+			out = append(out, in.M.BV(v, 8))
 		}
-		out := append([]*term.T{in.M.BV(code, 8), in.M.BV(uint64(len(digest)), 8)}, digest...)
+		out = append(out, digest...)
 		return Tuple{in.newByteSlice(out), Iface{}}
 	})
 }
